@@ -81,7 +81,7 @@ type outcome struct {
 	key, msg string
 	slowNode int
 	slowMs   int64
-	lostNode int    // a probe was handled and answered by the restarted server but failed at the caller
+	lostNode int // a probe was handled and answered by the restarted server but failed at the caller
 	lostErr  string
 	classes  []string
 	nontriv  bool
